@@ -139,7 +139,27 @@ const TGT: usize = 7;
 const TOK0: usize = 8;
 const NTOK: usize = 4;
 const NHOLD: usize = 8; // balances / allowances observed for addresses 0..7
-const MAX_TTL: u32 = 200_000;
+/// long-horizon ledger configuration: max_entry_ttl ~ 1 year, min_persistent_entry_ttl = max - 1,
+/// so persistent / instance entries of the UNMODIFIED code stay live over the 132 idle days of
+/// the "long idle" sequences, while anything moved to temporary storage (even with a 30-day
+/// extension) evaporates
+const MAX_TTL: u32 = 6_312_000;
+const DAY: u32 = 17_280;
+
+/// read a forwarder storage entry wherever it lives (the observation must not depend on the
+/// storage class the library chose; an expired / archived entry reads as absent)
+fn get_any<T: TryFromVal<Env, Val>>(e: &Env, key: &FeeAbstractionStorageKey) -> Option<T> {
+    if e.storage().persistent().has(key) {
+        return e.storage().persistent().get(key);
+    }
+    if e.storage().instance().has(key) {
+        return e.storage().instance().get(key);
+    }
+    if e.storage().temporary().has(key) {
+        return e.storage().temporary().get(key);
+    }
+    None
+}
 
 #[derive(Clone, Debug, PartialEq)]
 enum V {
@@ -268,10 +288,10 @@ impl Sim {
     fn allowlist_state(&self) -> String {
         let e = &self.e;
         e.as_contract(self.u.a(FWD), || {
-            let count: u32 = e.storage().instance().get(&FeeAbstractionStorageKey::Count).unwrap_or(0);
+            let count: u32 = get_any(e, &FeeAbstractionStorageKey::Count).unwrap_or(0);
             let mut at = vec![];
             for i in 0..(count + 2).min(NTOK as u32 + 2) {
-                let t: Option<Address> = e.storage().persistent().get(&FeeAbstractionStorageKey::Token(i));
+                let t: Option<Address> = get_any(e, &FeeAbstractionStorageKey::Token(i));
                 at.push(match t {
                     Some(a) => self.u.index_of(&a).map(|x| x.to_string()).unwrap_or("?".into()),
                     None => "_".into(),
@@ -281,7 +301,7 @@ impl Sim {
             let mut allowed = vec![];
             for k in 0..NTOK {
                 let t = self.u.a(TOK0 + k);
-                let i: Option<u32> = e.storage().persistent().get(&FeeAbstractionStorageKey::TokenIndex(t.clone()));
+                let i: Option<u32> = get_any(e, &FeeAbstractionStorageKey::TokenIndex(t.clone()));
                 idx.push(match i {
                     Some(i) => i.to_string(),
                     None => "_".into(),
@@ -291,7 +311,7 @@ impl Sim {
                 // of letting the harness die inside `as_contract`
                 let dangling = count > 0
                     && match i {
-                        Some(i) => !e.storage().persistent().has(&FeeAbstractionStorageKey::Token(i)),
+                        Some(i) => get_any::<Address>(e, &FeeAbstractionStorageKey::Token(i)).is_none(),
                         None => false,
                     };
                 allowed.push(if dangling {
@@ -661,12 +681,12 @@ impl Sim {
     }
     fn al_count(&self) -> u32 {
         let e = &self.e;
-        e.as_contract(self.u.a(FWD), || e.storage().instance().get(&FeeAbstractionStorageKey::Count).unwrap_or(0))
+        e.as_contract(self.u.a(FWD), || get_any(e, &FeeAbstractionStorageKey::Count).unwrap_or(0))
     }
     fn al_has(&self, tok: usize) -> bool {
         let e = &self.e;
         e.as_contract(self.u.a(FWD), || {
-            e.storage().persistent().has(&FeeAbstractionStorageKey::TokenIndex(self.u.a(tok).clone()))
+            get_any::<u32>(e, &FeeAbstractionStorageKey::TokenIndex(self.u.a(tok).clone())).is_some()
         })
     }
 
@@ -719,7 +739,7 @@ fn directed_variant(t: &mut Trace, var: Variant, eager: bool) {
     let base = |s: &Sim| -> Fwd { Fwd { eager, ..fwd(4, 2, 8, 5, 10, s.now + 20, "add", vec![V::I(7)]) } };
 
     // ---- fee / max pairs, expirations, user = forwarder, failing targets
-    t.seq(&format!("directed bounds+expiry+targets v={} eager={} min_temp=16 start=100", name, eager as u8));
+    t.seq(&format!("directed bounds+expiry+targets v={} eager={} min_temp=16 start=100 max_ttl={}", name, eager as u8, MAX_TTL));
     let mut s = Sim::new(var, 16, 100);
     s.mint(t, 8, 4, 1000);
     s.mint(t, 9, 4, 50);
@@ -790,7 +810,7 @@ fn directed_variant(t: &mut Trace, var: Variant, eager: bool) {
     fwd_right(&mut s, t, &f);
 
     // ---- pre-existing allowances below / at / above max, then expiry of the allowance
-    t.seq(&format!("directed allowances v={} eager={} min_temp=1 start=100", name, eager as u8));
+    t.seq(&format!("directed allowances v={} eager={} min_temp=1 start=100 max_ttl={}", name, eager as u8, MAX_TTL));
     let mut s = Sim::new(var, 1, 100);
     s.mint(t, 8, 4, 100_000);
     for (k, pre) in [9i128, 10, 11, 0, 5, 10, 1000].iter().enumerate() {
@@ -818,7 +838,7 @@ fn directed_variant(t: &mut Trace, var: Variant, eager: bool) {
     fwd_right(&mut s, t, &f);
 
     // ---- perturbed authorizations: every component of the signed tuple, the nested calls, the relayer
-    t.seq(&format!("directed auth v={} eager={} min_temp=16 start=100", name, eager as u8));
+    t.seq(&format!("directed auth v={} eager={} min_temp=16 start=100 max_ttl={}", name, eager as u8, MAX_TTL));
     let mut s = Sim::new(var, 16, 100);
     s.mint(t, 8, 4, 1000);
     s.mint(t, 9, 4, 1000);
@@ -908,7 +928,7 @@ fn directed_allowlist(t: &mut Trace, var: Variant) {
         vec![(11, true), (10, true), (11, false), (10, false), (10, true), (11, true), (9, true), (8, true), (10, false), (9, false), (8, false), (11, false)],
     ];
     for (k, h) in histories.iter().enumerate() {
-        t.seq(&format!("directed allowlist {} v={} min_temp=16 start=100", k, name));
+        t.seq(&format!("directed allowlist {} v={} min_temp=16 start=100 max_ttl={}", k, name, MAX_TTL));
         let mut s = Sim::new(var, 16, 100);
         s.mint(t, 8, 4, 1000);
         s.mint(t, 9, 4, 1000);
@@ -947,7 +967,55 @@ fn directed_allowlist(t: &mut Trace, var: Variant) {
     }
 }
 
+/// "long idle": allow a few tokens, disallow one, then let 1 day, 31 days and 100 days pass
+/// WITHOUT any invocation of the forwarder; after each pause all allow-list getters must be what
+/// they were, an allowed token must still be accepted and a not-allowed one still refused
+/// (an entry that silently expires would make the list look empty = every token accepted, or
+/// refuse an allowed token, or break the enumeration)
+fn directed_idle(t: &mut Trace, var: Variant, eager: bool) {
+    let name = if var == Variant::Pd { "pd" } else { "lib" };
+    t.seq(&format!("directed idle v={} eager={} min_temp=16 start=100 max_ttl={}", name, eager as u8, MAX_TTL));
+    let mut s = Sim::new(var, 16, 100);
+    for tok in TOK0..TOK0 + NTOK {
+        s.mint(t, tok, 4, 1_000_000);
+    }
+    s.set_allowed(t, 8, true, 1, &[1], false);
+    s.set_allowed(t, 9, true, 1, &[1], false);
+    s.set_allowed(t, 10, true, 1, &[1], false);
+    s.set_allowed(t, 9, false, 1, &[1], false); // swap-and-pop: [8, 10]
+    let probe = |s: &mut Sim, t: &mut Trace, good: usize, bad: usize| {
+        let f = Fwd { eager, ..fwd(4, 2, good, 3, 7, s.now + 50, "ping", vec![]) };
+        fwd_right(s, t, &f);
+        let f = Fwd { eager, ..fwd(4, 2, bad, 3, 7, s.now + 50, "ping", vec![]) };
+        fwd_right(s, t, &f);
+        s.forward(t, &f, &[], None, true);
+    };
+    probe(&mut s, t, 8, 9);
+    for days in [1u32, 31, 100] {
+        s.advance(t, days * DAY);
+        probe(&mut s, t, 10, 11);
+        probe(&mut s, t, 8, 9);
+    }
+    // the list is still operable: the index map is still the inverse of the enumeration
+    s.set_allowed(t, 8, false, 1, &[1], false);
+    s.set_allowed(t, 11, true, 1, &[1], false);
+    s.set_allowed(t, 10, true, 1, &[1], false);
+    probe(&mut s, t, 11, 8);
+    s.set_allowed(t, 10, false, 1, &[1], false);
+    s.set_allowed(t, 11, false, 1, &[1], false);
+    // empty again: everything accepted
+    probe(&mut s, t, 9, 9);
+    // a second, single long pause right after allowing (no observation-induced TTL extension
+    // in between): 40 days
+    s.set_allowed(t, 9, true, 1, &[1], false);
+    s.advance(t, 40 * DAY);
+    probe(&mut s, t, 9, 10);
+}
+
 fn scenario_directed(t: &mut Trace) {
+    directed_idle(t, Variant::Pd, false);
+    directed_idle(t, Variant::Lib, true);
+    directed_idle(t, Variant::Lib, false);
     directed_variant(t, Variant::Pl, true);
     directed_variant(t, Variant::Pd, false);
     directed_variant(t, Variant::Lib, true);
@@ -1201,7 +1269,7 @@ fn random_sequences(t: &mut Trace, rng: &mut Rng, nseq: u64, len: u64, seed: u64
         let min_temp = if rng.chance(50) { 1 } else { 16 };
         let start = *rng.pick(&[2u32, 100, 5000]);
         let mut s = Sim::new(var, min_temp, start);
-        t.seq(&format!("rand k={} seed={} v={} min_temp={} start={}", k, seed, s.vname(), min_temp, start));
+        t.seq(&format!("rand k={} seed={} v={} min_temp={} start={} max_ttl={}", k, seed, s.vname(), min_temp, start, MAX_TTL));
         // funding
         for _ in 0..(3 + rng.below(4)) {
             let tok = TOK0 + rng.below(NTOK as u64) as usize;
@@ -1270,8 +1338,13 @@ fn random_sequences(t: &mut Trace, rng: &mut Rng, nseq: u64, len: u64, seed: u64
                 let to = rng.below(NHOLD as u64) as usize;
                 s.mint(t, tok, to, rng.range(1, 500) as i128);
             } else {
-                let n = *rng.pick(&[0u32, 1, 1, 2, 3, 15, 16, 17, 100, 299, 300]);
-                if (s.now as u64) + (n as u64) < 60_000 {
+                let n = if rng.chance(12) {
+                    t.count("b:long-idle");
+                    *rng.pick(&[DAY, 30 * DAY, 31 * DAY, 100 * DAY])
+                } else {
+                    *rng.pick(&[0u32, 1, 1, 2, 3, 15, 16, 17, 100, 299, 300])
+                };
+                if (s.now as u64) + (n as u64) < 3_500_000 {
                     s.advance(t, n);
                 }
             }
